@@ -126,27 +126,140 @@ def mk_events(inp):
     return [[mk_particle(d) for d in ev] for ev in inp["events"]]
 
 
+# ---- round-4 devices: how the SAME call is presented to the code (the reference and the model do not see this) ----
+# variant = None or a dict with some of
+#   ja      : "copy" | "deepcopy" | "pickle"   the JetAnalysis object is replaced by its copy before the call
+#   ja_used : True                              ... after it has served another call and read_jet_data (warm-up sample)
+#   data    : "tuple-outer" | "tuple-inner" | "tuple-both" | "objarr" | "copy" | "deepcopy" | "pickle"
+#             container / copy of the hadron data (tuples and numpy object arrays behave as sequences; the docs say
+#             "list", the clean code accepts them - probed)
+#   path    : "relative" | "pathlib" | "nonascii" | "relative-nonascii"   (bare file name after os.chdir into a fresh
+#             directory; pathlib.Path; file name with blanks and non-ASCII characters)
+#   env     : "numpy" | "random" | "both"       np.seterr(all="warn") + print options / advanced random + np.random state
+#   text    : "lf" | "blanks" | "lf+blanks"     read_jet_data must read the same groups from the file with LF line ends
+#             (the writer produces CRLF) / blanks around the fields (the clean reader accepts both - probed)
+COPIERS = {"copy": copy.copy, "deepcopy": copy.deepcopy, "pickle": lambda o: __import__("pickle").loads(__import__("pickle").dumps(o))}
+WARM = [[dict(px=30.0, py=1.0, pz=2.0, E=31.0, status=0, charge=1, pdg=211), dict(px=29.0, py=-1.0, pz=2.5, E=30.0, status=0, charge=-1, pdg=-211),
+         dict(px=1.0, py=0.1, pz=0.1, E=1.1, status=-1, charge=0, pdg=111)]]
+
+
+def gen_variant(rng):
+    if rng.random() < 0.55:
+        return None
+    v = {}
+    if rng.random() < 0.4:
+        v["ja"] = rng.choice(["copy", "deepcopy", "pickle"])
+    if rng.random() < 0.3:
+        v["ja_used"] = True
+    if rng.random() < 0.45:
+        v["data"] = rng.choice(["tuple-outer", "tuple-inner", "tuple-both", "objarr", "copy", "deepcopy", "pickle"])
+    if rng.random() < 0.4:
+        v["path"] = rng.choice(["relative", "pathlib", "nonascii", "relative-nonascii"])
+    if rng.random() < 0.3:
+        v["env"] = rng.choice(["numpy", "random", "both"])
+    if rng.random() < 0.3:
+        v["text"] = rng.choice(["lf", "blanks", "lf+blanks"])
+    return v or None
+
+
+def present_data(events, how):
+    """the hadron data in another container / as a copy; same content"""
+    import numpy as np
+    if how in (None, "list"):
+        return events
+    if how == "tuple-outer":
+        return tuple(events)
+    if how == "tuple-inner":
+        return [tuple(e) for e in events]
+    if how == "tuple-both":
+        return tuple(tuple(e) for e in events)
+    if how == "objarr":
+        a = np.empty(len(events), dtype=object)
+        for i, e in enumerate(events):
+            a[i] = e
+        return a
+    return COPIERS[how](events)
+
+
+def global_state():
+    import random as _r
+    import numpy as np
+    st = np.random.get_state()
+    return dict(cwd=os.getcwd(), random=_r.getstate(), nprandom=(st[0], st[1].tobytes(), st[2], st[3], st[4]), seterr=np.geterr(),
+                printoptions=repr(sorted(np.get_printoptions().items(), key=lambda kv: kv[0])))
+
+
 def real_run(inp):
     """Run the real perform_jet_finding.  Returns (outcome, rows, path): outcome 'ok'|'err value'|'err other:<T>',
-    rows = csv rows (lists of str) of the output file afterwards or None when the file does not exist."""
+    rows = csv rows (lists of str) of the output file afterwards or None when the file does not exist.
+    `inp["variant"]` (optional) says how the call is presented; `real_run.leaks` lists the pieces of global state
+    (cwd, random, np.random, np.seterr, print options) the call did not leave as it found them."""
+    import random as _r
+    import numpy as np
     from sparkx.JetAnalysis import JetAnalysis
-    path = os.path.join(_tmpdir(), "out.csv")
+    v = inp.get("variant") or {}
+    real_run.leaks = []
+    pv = v.get("path")
+    name = "jets \u00e9\u00fc \u96f6 out.csv" if pv in ("nonascii", "relative-nonascii") else "out.csv"
+    if pv in ("relative", "relative-nonascii"):
+        wd = tempfile.mkdtemp(prefix="cwd_", dir=_tmpdir())
+    else:
+        wd = _tmpdir()
+    path = os.path.join(wd, name)
     if os.path.exists(path):
         os.remove(path)
     if inp["prior"] is not None:
         with open(path, "w", newline="") as f:
             f.write(inp["prior"])
     ja = JetAnalysis()
+    if v.get("ja_used"):
+        wp = os.path.join(_tmpdir(), "warm.csv")
+        with contextlib.redirect_stdout(io.StringIO()):
+            ja.perform_jet_finding([[mk_particle(d) for d in ev] for ev in WARM], 0.4, (None, None), (None, None), wp)
+        ja.read_jet_data(wp)
+    if v.get("ja"):
+        ja = COPIERS[v["ja"]](ja)
+    events = present_data(mk_events(inp), v.get("data"))
+    arg = path
+    if pv == "pathlib":
+        import pathlib
+        arg = pathlib.Path(path)
+    saved_cwd, saved_err, saved_po = os.getcwd(), np.geterr(), np.get_printoptions()
+    saved_r, saved_np = _r.getstate(), np.random.get_state()
     outcome = "ok"
     try:
-        with contextlib.redirect_stdout(io.StringIO()):
-            ja.perform_jet_finding(mk_events(inp), inp["R"], tuple(inp["eta"]), tuple(inp["pt"]), path,
-                                   assoc_only_charged=inp["only_charged"], jet_algorithm=_alg(inp["alg"]))
-    except ValueError:
-        outcome = "err value"
-    except Exception as e:  # noqa: BLE001
-        outcome = "err other:" + type(e).__name__
+        if pv in ("relative", "relative-nonascii"):
+            os.chdir(wd)
+            arg = name
+        if v.get("env") in ("numpy", "both"):
+            np.seterr(all="warn")
+            np.set_printoptions(precision=2, suppress=True, threshold=3)
+        if v.get("env") in ("random", "both"):
+            _r.seed(12345)
+            _r.random()
+            np.random.seed(54321)
+            np.random.random(7)
+        before = global_state()
+        try:
+            with contextlib.redirect_stdout(io.StringIO()):
+                ja.perform_jet_finding(events, inp["R"], tuple(inp["eta"]), tuple(inp["pt"]), arg,
+                                       assoc_only_charged=inp["only_charged"], jet_algorithm=_alg(inp["alg"]))
+        except ValueError:
+            outcome = "err value"
+        except Exception as e:  # noqa: BLE001
+            outcome = "err other:" + type(e).__name__
+        after = global_state()
+        real_run.leaks = [k for k in before if before[k] != after[k]]
+    finally:
+        os.chdir(saved_cwd)
+        np.seterr(**saved_err)
+        np.set_printoptions(**saved_po)
+        _r.setstate(saved_r)
+        np.random.set_state(saved_np)
     return outcome, read_rows(path), path
+
+
+real_run.leaks = []
 
 
 def read_rows(path):
@@ -321,7 +434,8 @@ def gen_exact_boundary(rng):
     prior, ptag = gen_prior(rng)
     # the lower pT bound keeps the soft jets (B alone, bystanders: possibly holes only) out of the selection
     return dict(events=events, R=R, alg=alg, eta=[None, None], pt=[rng.choice([0.6, 0.75]) * pt, rng.choice([None, None, 2.0 * pt])],
-                only_charged=rng.random() < 0.5, prior=prior), dict(kinds=kinds, prior=ptag, tags=["boundary:dr==R exactly"])
+                only_charged=rng.random() < 0.5, prior=prior, variant=gen_variant(rng)), \
+        dict(kinds=kinds, prior=ptag, tags=["boundary:dr==R exactly"])
 
 
 def gen_input(rng, ctx=None):
@@ -378,7 +492,10 @@ def gen_input(rng, ctx=None):
             pt = [j["pt"], None]
         tags.append("boundary:" + what)
     prior, ptag = gen_prior(rng)
-    return dict(events=events, R=R, alg=alg, eta=eta, pt=pt, only_charged=only_charged, prior=prior), \
+    variant = gen_variant(rng)
+    for k_, x_ in sorted((variant or {}).items()):
+        tags.append("presented:%s=%s" % (k_, x_))
+    return dict(events=events, R=R, alg=alg, eta=eta, pt=pt, only_charged=only_charged, prior=prior, variant=variant), \
         dict(kinds=kinds, prior=ptag, tags=tags)
 
 
@@ -1049,7 +1166,12 @@ def oracle_check(inp):
     if isinstance(ref, tuple):
         return ref
     outcome, real, path = real_run(inp)
-    return judge(inp, outcome, real, path, ref=ref)
+    leaks = list(real_run.leaks)
+    r = judge(inp, outcome, real, path, ref=ref)
+    if r is None and leaks:
+        return ("global-state-changed", "perform_jet_finding did not leave " + ", ".join(leaks) + " as it found it",
+                dict(changed=leaks))
+    return r
 
 
 def judge(inp, outcome, real, path, ref=None, reader=None):
@@ -1106,6 +1228,28 @@ def judge(inp, outcome, real, path, ref=None, reader=None):
     if ja.jet_data_ != want or ja.get_jets() != [g[0] for g in want] or ja.get_associated_particles() != [g[1:] for g in want]:
         return ("reader-grouping", "read_jet_data / get_jets / get_associated_particles do not return the written rows grouped jet by jet",
                 dict(expected_group_sizes=[len(g) for g in want], observed_group_sizes=[len(g) for g in ja.jet_data_]))
+    tv = (inp.get("variant") or {}).get("text")
+    if tv:
+        # the same rows with LF line ends / blanks around the fields (both accepted by csv + int()/float()): same groups
+        with open(path, "r", newline="") as f:
+            txt = f.read()
+        if "blanks" in tv:
+            txt = "".join(" , ".join(l.rstrip("\r\n").split(",")) + "  " + l[len(l.rstrip("\r\n")):] for l in txt.splitlines(keepends=True))
+        if "lf" in tv:
+            txt = txt.replace("\r\n", "\n")
+        p2 = path + ".text-variant.csv"
+        with open(p2, "w", newline="") as f:
+            f.write(txt)
+        jb = JetAnalysis()
+        try:
+            jb.read_jet_data(p2)
+        except Exception as e:  # noqa: BLE001
+            return ("reader-raises/text-variant", f"read_jet_data raised {type(e).__name__} on the written rows with {tv}", dict(error=str(e)))
+        finally:
+            os.remove(p2)
+        if jb.jet_data_ != want:
+            return ("reader-grouping/text-variant", f"read_jet_data returns other groups for the same rows with {tv}",
+                    dict(expected_group_sizes=[len(g) for g in want], observed_group_sizes=[len(g) for g in jb.jet_data_]))
     return None
 
 
@@ -1146,6 +1290,12 @@ def shrink(inp, key):
                     break
             if changed:
                 break
+        if not changed and cur.get("variant"):
+            for k_ in sorted(cur["variant"]):
+                c = dict(cur, variant={a: b for a, b in cur["variant"].items() if a != k_} or None)
+                if still(c):
+                    cur, changed = c, True
+                    break
         if not changed and cur["prior"] is not None:
             lines = cur["prior"].splitlines(keepends=True)
             for cand in ([None, ""] if cur["prior"] != "" else [None]) + ([lines[0]] if len(lines) > 1 else []):
